@@ -203,3 +203,22 @@ int new_item(int quick)
 	return r;			/* control: item_c is never initialised */
 }
 int use_items(int i) { return item_a[i] + item_b[i] + item_c[i] + item_d[i] + (reject ? item_mode[i] : 0); }
+
+/* ---------------------------------------------------------------- R9 */
+void good_local_array(int with_cap)
+{
+	int i, *acc = allocate_array(lastdfa + 3, sizeof(int));
+	if (reject) { for (i = 1; i <= lastdfa; ++i) acc[i] = i; acc[i] = 7; }
+	else { for (i = 1; i <= lastdfa; ++i) acc[i] = 0; acc[i] = 0; }
+	for (i = 1; i <= lastdfa; ++i) mkdata(acc[i]);
+	mkdata(acc[i]);
+	if (with_cap) mkdata(acc[i]);
+}
+void bad_cap(void)					/* control: one past what was written */
+{
+	int i, *acc = allocate_array(lastdfa + 3, sizeof(int));
+	for (i = 1; i <= lastdfa; ++i) acc[i] = i;
+	acc[i] = 0;
+	for (i = 1; i <= lastdfa; ++i) mkdata(acc[i]);
+	mkdata(acc[i + 1]);
+}
